@@ -168,3 +168,44 @@ func specEnc(r0 uint16, iv, plain []byte, i int) uint16 {
 //@ loop 1 invariant [C08.cs] len(cipher) == len(iv) + len(plain) && ref(cipher) != ref(iv) && ref(cipher) != ref(plain) && ref(cipher) != 0 && off(cipher) == 0 && R == specEnc(4330, iv, plain, i) && c1 == 52845 && c2 == 22719
 //@ loop 1 invariant [C08.cs] forall k :: 0 <= k && k < i ==> cipher[k] == specPP(iv, plain, k) ^ byte(specEnc(4330, iv, plain, k) >> 8)
 //@ loop 1 invariant [C08.cs] forall k :: i <= k && k < len(cipher) ==> cipher[k] == specPP(iv, plain, k)
+
+// ---------------------------------------------------------------------
+// C08: eexec stream writer (key 55665) and hex armouring
+
+func eexecWriterWF(w *eexecWriter) bool {
+	return w.w != nil && 0 <= w.pos && w.pos <= len(w.buf) && len(w.buf) >= 1
+}
+
+//@ typeinv eexecWriter eexecWriterWF
+
+// specEE(r0, p, i): eexec cipher state after encrypting p[0..i) starting from r0.
+func specEE(r0 uint16, p []byte, i int) uint16 {
+	if i <= 0 {
+		return r0
+	}
+	r := specEE(r0, p, i-1)
+	c := p[i-1] ^ byte(r>>8)
+	return (uint16(c)+r)*52845 + 22719
+}
+
+//@ func (*eexecWriter).flush
+//@ safety C10
+//@ ensures [C08.eexec.state] result == nil ==> w.pos == 0
+//@ loop 1 invariant [C08.eexec] w != nil && eexecWriterWF(w) && 0 <= i && i <= w.pos && w.pos == old(w.pos) && ref(w.buf) == old(ref(w.buf)) && off(w.buf) == old(off(w.buf)) && len(w.buf) == old(len(w.buf)) && w.R == old(specEE(w.R, w.buf, i))
+//@ loop 1 back-when [C08.eexec.step] i == prev(i) + 1 && w.buf[prev(i)] == prev(w.buf[i]) ^ byte(prev(w.R) >> 8) && w.R == (uint16(w.buf[prev(i)])+prev(w.R))*52845 + 22719
+//@ loop 1 back-when [C08.eexec.step.frame] forall k :: 0 <= k && k < len(w.buf) && k != prev(i) ==> w.buf[k] == prev(w.buf[k])
+//@ loop 1 invariant [C08.eexec.rest] forall k :: i <= k && k < len(w.buf) ==> w.buf[k] == old(w.buf[k])
+//@ loop 1 decreases w.pos - i
+
+//@ func (*eexecWriter).Write
+//@ safety C10
+//@ ensures [C08.eexec.count] result1 == nil ==> result0 == len(p)
+//@ loop 1 invariant eexecWriterWF(w) && 0 <= n && n + len(p) == len(old(p))
+
+//@ func (*eexecWriter).Close
+//@ safety C10
+
+//@ func newEExecWriter
+//@ safety C10
+//@ requires w != nil
+//@ ensures result1 == nil ==> result0 != nil && eexecWriterWF(result0)
